@@ -49,4 +49,8 @@ CLAIMS = {
   technique="property-level invariant monitor over the real LoadBalancer/Orchestrator driven with scripted connections under a paused clock (fairness, readiness patterns, churn) + end-to-end PUSH->PULLs with a stalled raw peer",
   level_text="Held (apart from the recorded wait-on-one-full-peer finding) on every history explored: exactly one peer per accepted message, round-robin spread <= 1 + extra sender tasks with all peers ready, no starvation, no duplicate around add/remove. Exploration.",
   level_note="Invariants, not an exact cursor model (unequal shares among partially ready peers are legitimate); the first-peer waiter race is decided under C08."),
+ "C02": dict(
+  technique="offline frame-stream checker at the receiving application's boundary (every recv()/recv_multipart() result flattened and parsed at frames without MORE) over randomized multipart shapes, call styles, peer attach/detach events and oversize sends; panic watch including the caller's task",
+  level_text="Held (apart from the recorded REQ/REP frame-by-frame-read and PUSH frame-by-frame-send findings) on every history explored: the flattened stream is a concatenation of whole sent messages with MORE on all but the last frame, other peers attaching/detaching/dying mid-message change nothing, and over-long messages are refused with an error, never a panic or a truncated delivery. Exploration.",
+  level_note="ROUTER.send_multipart receives correctly flagged frames as documented; DEALER senders are paced because DEALER egress ordering is a recorded C01 finding."),
 }
